@@ -3,9 +3,15 @@
 package main
 
 import (
+	"context"
 	"fmt"
+	"io"
 	"os"
+	"os/exec"
 	"runtime/debug"
+	"strconv"
+	"strings"
+	"time"
 
 	"verif/mc/internal/core"
 	"verif/mc/internal/props"
@@ -38,7 +44,106 @@ func main() {
 		fmt.Fprintln(os.Stderr, "unknown property", os.Args[1])
 		os.Exit(2)
 	}
+	if os.Getenv("VERIF_CHILD") == "" && os.Getenv("VERIF_NO_SUPERVISOR") == "" {
+		os.Exit(supervise(os.Args[1], tier))
+	}
 	r := core.NewRun(os.Args[1], tier)
 	cov := fn(r)
 	os.Exit(r.Finish(cov))
 }
+
+// supervise runs the check in a child process. The checks execute jet in-process, so a fatal error in jet code
+// (stack overflow from runaway recursion, concurrent map access, out of memory) takes the whole check down
+// without a verdict, and a call that never returns outside a watched loop would block it for ever. The
+// supervisor turns both into a reported violation: a child that dies abnormally is run once more, and if it dies
+// again (or exceeds twice its budget plus five minutes) that is the finding.
+func supervise(prop, tier string) int {
+	var last string
+	for attempt := 1; attempt <= 2; attempt++ {
+		code, tail, timedOut := runChild(prop, tier)
+		if !timedOut && (code == 0 || code == 1) {
+			return code
+		}
+		last = fmt.Sprintf("exit status %d", code)
+		if timedOut {
+			last = "no verdict within twice the budget plus five minutes; killed"
+		}
+		last += "; " + tail
+		fmt.Fprintf(os.Stderr, "mc: the check's process ended abnormally (attempt %d): %s\n", attempt, firstFatal(tail))
+		if timedOut {
+			break
+		}
+	}
+	r := core.NewRun(prop, tier)
+	r.Violate(core.Violation{Sig: "check-process-died", What: "the process executing jet for this check died or hung instead of giving a verdict: " + firstFatal(last),
+		Case: map[string]interface{}{"property": prop, "tier": tier, "how": last}})
+	return r.Finish(map[string]interface{}{"exhaustive": false, "aborted": "the check's process died", "rule": "nothing was covered: the process died"})
+}
+
+func firstFatal(s string) string {
+	for _, pfx := range [][]string{{"fatal error:", "panic:"}, {"runtime:"}} {
+		for _, l := range strings.Split(s, "\n") {
+			t := strings.TrimSpace(l)
+			for _, p := range pfx {
+				if strings.HasPrefix(t, p) {
+					if len(t) > 200 {
+						t = t[:200]
+					}
+					return t
+				}
+			}
+		}
+	}
+	if len(s) > 200 {
+		s = s[:200]
+	}
+	return strings.ReplaceAll(s, "\n", " | ")
+}
+
+func runChild(prop, tier string) (code int, tail string, timedOut bool) {
+	exe, err := os.Executable()
+	if err != nil {
+		exe = os.Args[0]
+	}
+	budget := 150 * time.Second
+	if tier == "thorough" {
+		budget = 25 * time.Minute
+	}
+	if s := os.Getenv("VERIF_BUDGET_S"); s != "" {
+		if n, err := strconv.Atoi(s); err == nil {
+			budget = time.Duration(n) * time.Second
+		}
+	}
+	ctx, cancel := context.WithTimeout(context.Background(), 2*budget+5*time.Minute)
+	defer cancel()
+	cmd := exec.CommandContext(ctx, exe, prop, tier)
+	cmd.Env = append(os.Environ(), "VERIF_CHILD=1")
+	cmd.Stdout = os.Stdout
+	var buf tailBuf
+	cmd.Stderr = io.MultiWriter(os.Stderr, &buf)
+	err = cmd.Run()
+	if ctx.Err() == context.DeadlineExceeded {
+		return -1, buf.String(), true
+	}
+	if err == nil {
+		return 0, "", false
+	}
+	if ee, ok := err.(*exec.ExitError); ok {
+		return ee.ExitCode(), buf.String(), false
+	}
+	return -1, err.Error(), false
+}
+
+// tailBuf keeps the first 4 KB of what is written to it (the head of a Go crash report names the error).
+type tailBuf struct{ b []byte }
+
+func (t *tailBuf) Write(p []byte) (int, error) {
+	if room := 4096 - len(t.b); room > 0 {
+		if len(p) < room {
+			room = len(p)
+		}
+		t.b = append(t.b, p[:room]...)
+	}
+	return len(p), nil
+}
+func (t *tailBuf) String() string { return string(t.b) }
